@@ -5,6 +5,7 @@ CONSTANTS
   QueryClasses = {"P"}
   AllowClear = FALSE
   AllowRelate = TRUE
+  AllowQueryX = TRUE
   AllowSweep = TRUE
   Hist = FALSE
   PopIdOfNone = FALSE
